@@ -130,6 +130,7 @@ func (p *Program) normaliseOnce(known map[string]bool, round int) (map[string][]
 		cs    *CallSite
 	}
 	var pending []pendingInline
+	wrappedIn := map[*FuncSrc]bool{} // functions whose text gets a wrap/hoist edit this round
 	for _, cs := range sites {
 		callee := calleeOf(cs)
 		if callee == nil {
@@ -167,6 +168,39 @@ func (p *Program) normaliseOnce(known map[string]bool, round int) (map[string][]
 			edits[fname] = append(edits[fname], textEdit{start, end, "func() { " + string(b[start:end]) + " }()"})
 			everInlined[cand.fs.Name] = true
 			notes = append(notes, fmt.Sprintf("deferred call of %s in %s at %s wrapped in a function literal", cand.fs.Name, cs.In.Root().Name, p.PosStr(cs.Call.Pos())))
+			wrappedIn[cs.In.Root()] = true
+			continue
+		}
+		// `go H(a, b)`: the arguments are evaluated now, the call runs in the goroutine:
+		// `go func(p0 A, p1 B) { H(p0, p1) }(a, b)`, whose call the next round inlines
+		if gs, isGo := p.Parent(cs.In.File, cs.Call).(*ast.GoStmt); isGo && gs.Call == cs.Call {
+			if _, isIdent := unparen(cs.Call.Fun).(*ast.Ident); !isIdent || busyStmt[gs] {
+				continue
+			}
+			sig, _ := callee.Type().(*types.Signature)
+			if sig == nil || sig.Variadic() || sig.Params().Len() != len(cs.Call.Args) {
+				continue
+			}
+			okQ := true
+			qual := qualifierFor(cs.In.Pkg.Types, cs.In.File, cs.In.Pkg.TypesInfo, &okQ)
+			seq++
+			var ps, as []string
+			for i := 0; i < sig.Params().Len(); i++ {
+				nm := fmt.Sprintf("g%d_i%d_%d", i, round, seq)
+				ps = append(ps, nm+" "+types.TypeString(sig.Params().At(i).Type(), qual))
+				as = append(as, nm)
+			}
+			if !okQ {
+				continue
+			}
+			busyStmt[gs] = true
+			fstart, fend := file.Offset(cs.Call.Fun.Pos()), file.Offset(cs.Call.Fun.End())
+			fn := string(b[fstart:fend])
+			text := "func(" + strings.Join(ps, ", ") + ") { " + fn + "(" + strings.Join(as, ", ") + ") }"
+			edits[fname] = append(edits[fname], textEdit{fstart, fend, text})
+			everInlined[cand.fs.Name] = true
+			notes = append(notes, fmt.Sprintf("go statement calling %s in %s at %s wrapped in a function literal", cand.fs.Name, cs.In.Root().Name, p.PosStr(cs.Call.Pos())))
+			wrappedIn[cs.In.Root()] = true
 			continue
 		}
 		// `if H(x) != y {`: the call is evaluated first and unconditionally; it is
@@ -195,6 +229,7 @@ func (p *Program) normaliseOnce(known map[string]bool, round int) (map[string][]
 				textEdit{istart, istart, tmp + " := " + strings.ReplaceAll(string(b[cstart:cend]), "\n", " ") + "; "})
 			everInlined[cand.fs.Name] = true
 			notes = append(notes, fmt.Sprintf("call of %s in a condition of %s at %s hoisted into a temporary", cand.fs.Name, cs.In.Root().Name, p.PosStr(cs.Call.Pos())))
+			wrappedIn[cs.In.Root()] = true
 			continue
 		}
 		seq++
@@ -231,6 +266,9 @@ func (p *Program) normaliseOnce(known map[string]bool, round int) (map[string][]
 	receives := map[*FuncSrc]bool{}
 	for _, pi := range pending {
 		receives[pi.cs.In.Root()] = true
+	}
+	for f := range wrappedIn {
+		receives[f] = true
 	}
 	provisional := map[string]map[int]bool{}
 	for _, pi := range pending {
